@@ -5,7 +5,8 @@ from fractions import Fraction as Fr
 import mpmath
 from hypothesis import strategies as st
 
-from frame.geometry.geometry import Point
+from frame.die.die import Die
+from frame.geometry.geometry import Point, Rectangle
 from tools.force.fruchterman_reingold import circle_circle_intersection_area
 from vfw.core import Sub, Violation
 
@@ -41,6 +42,18 @@ def lens(x1, y1, r1, x2, y2, r2):
 
 
 def run_discs(c):
+    # the function is used on the modules of a die: a die (of any size relative to the discs) may have been built before, which
+    # defines the process-wide tolerances of the rectangle geometry; the overlap area of two discs is what it is all the same
+    Rectangle.undefine_epsilon()
+    try:
+        if c.get("die"):
+            Die({"width": float(c["die"][0]), "height": float(c["die"][1])})
+        return _run_discs(c)
+    finally:
+        Rectangle.undefine_epsilon()
+
+
+def _run_discs(c):
     x1, y1, r1, x2, y2, r2 = (float(v) for v in c["d"])
     R = max(r1, r2)
     res = []
@@ -88,6 +101,10 @@ def run_discs(c):
                 x2, y2, nx, ny, what, v2, mpmath.nstr(ref2, 17)), "stale-after-in-place-move")
     d = math.hypot(x1 - x2, y1 - y2)
     cls = ["centre-moved-in-place-then-asked-again"] if c.get("then") else []
+    if c.get("die"):
+        cls.append("a-die-was-built-before")
+        if min(c["die"]) >= 300 * R and mpmath.mpf(1e-5) * R * R < ref < mpmath.mpf(1e-3) * R * R:
+            cls.append("shallow-overlap-on-a-large-die")
     near = False
     for t, name in ((r1 + r2, "ext-tangent"), (abs(r1 - r2), "int-tangent")):
         if t > 0 and abs(d - t) <= 8 * math.ulp(t):
@@ -132,7 +149,7 @@ def discs_s(draw):
     else:
         x1 = draw(st.floats(-1e4, 1e4, allow_nan=False))
         y1 = draw(st.floats(-1e4, 1e4, allow_nan=False))
-    kind = draw(st.sampled_from(["ext", "ext", "int", "int", "zero", "inside", "cross", "far", "rand", "pyth", "tiny", "d=r", "d=r"]))
+    kind = draw(st.sampled_from(["ext", "ext", "int", "int", "zero", "inside", "cross", "far", "rand", "pyth", "tiny", "d=r", "d=r", "shallow"]))
     if kind == "pyth":
         # the common chord passes exactly through one of the centres: d^2 == |r1^2 - r2^2| in floating point
         a, b, c = draw(st.sampled_from([(5, 3, 4), (5, 4, 3), (13, 12, 5), (13, 5, 12), (17, 8, 15), (25, 7, 24), (10, 6, 8)]))
@@ -157,6 +174,10 @@ def discs_s(draw):
     elif kind == "d=r":
         # the centre of one disc lies exactly on the boundary of the other (ties between the distance and a radius)
         D = r1 if draw(st.booleans()) else r2
+    elif kind == "shallow":
+        # the discs overlap by a small fraction of their size: the lens is small but well above the accuracy stated
+        t = 10.0 ** -draw(st.floats(2, 4, allow_nan=False))
+        D = (r1 + r2) * (1 - t) if draw(_i(0, 3)) else abs(r1 - r2) * (1 + t)
     elif kind == "tiny":
         # almost coincident centres: distances whose square is far below the radii's ulp, down to the subnormal range
         if draw(st.booleans()):
@@ -187,6 +208,9 @@ def discs_s(draw):
         else:
             y2 = math.nextafter(y2, math.inf if ulps > 0 else -math.inf)
     case = dict(d=[x1, y1, r1, x2, y2, r2])
+    if draw(st.booleans()):
+        big = max(r1, r2, abs(x1), abs(y1), abs(x2), abs(y2)) * 10.0 ** draw(st.sampled_from([0.5, 1, 2, 3, 3, 4]))
+        case["die"] = [big, big * draw(st.sampled_from([1.0, 1.0, 0.5, 2.0]))]
     if draw(_i(0, 3)) == 0:
         f = draw(st.sampled_from([0.0, 0.5, 1.5, 3.0]))
         case["then"] = [x1 + f * (r1 + r2) * ux, y1 + f * (r1 + r2) * uy]
@@ -195,4 +219,5 @@ def discs_s(draw):
 
 def subchecks():
     return [Sub("discs", run_discs, strategy=discs_s(), n_quick=60000, n_thorough=1500000, fuzz_thorough=30000,
-                required=("ext-tangent", "int-tangent", "equal-radii", "concentric", "crossing", "apart", "nested", "chord-through-centre", "distance-squared-underflows", "distance-equals-a-radius", "centre-moved-in-place-then-asked-again"))]
+                required=("ext-tangent", "int-tangent", "equal-radii", "concentric", "crossing", "apart", "nested", "chord-through-centre", "distance-squared-underflows", "distance-equals-a-radius", "centre-moved-in-place-then-asked-again",
+                          "a-die-was-built-before", "shallow-overlap-on-a-large-die"))]
